@@ -141,7 +141,41 @@ def history_case(steps):
     return []
 
 
+def resown_case(kind):
+    """a crop is sown, grown and looked at, then sown AGAIN at the same place with other constants / another function and every batch is grown
+    again explicitly: the reap is what a direct run of the NEW sowing gives"""
+    def g1(a, b, c=0, t=None, big=None):
+        return float(a + b + c), a * b
+
+    def g2(a, b, c=0, t=None, big=None):
+        return float(1000 + a + b + c), a * b
+    combos = {"a": [1, 2], "b": [3]}
+    with tmpdir() as d, quiet():
+        r = xyz.Runner(g1, var_names=["x", "y"], constants={"c": 1})
+        crop = r.Crop(name="again", parent_dir=d, batchsize=1)
+        crop.sow_combos(combos)
+        crop.grow_missing()
+        if kind == "constants":
+            r2, extra = r, {"c": 50}
+        else:
+            r2, extra = xyz.Runner(g2, var_names=["x", "y"], constants={"c": 1}), {}
+        crop2 = r2.Crop(name="again", parent_dir=d, batchsize=1)
+        crop2.sow_combos(combos, constants=extra)
+        crop2.grow(tuple(range(1, crop2.num_batches + 1)))
+        got = crop2.reap()
+        fresh = xyz.Runner(g2 if kind == "function" else g1, var_names=["x", "y"], constants={"c": 1})
+        direct = fresh.run_combos(combos, constants=extra, verbosity=0)
+        if not same_ds(got, direct):
+            return [f"after sowing again with another {kind} the reap is\n{got}\nbut a direct run gives\n{direct}"]
+    return None
+
+
 tried = 0
+for kind in ("constants", "function"):
+    tried += 1
+    pr = resown_case(kind)
+    if pr:
+        finish(True, input=dict(farmer="Runner", history=f"sow, grow, sow again with another {kind}, grow every batch again, reap"), observed=pr, tried=tried)
 for steps in ([({"a": [1, 2], "b": [1]}, {"c": 7}, None), ({"a": [3], "b": [1, 2]}, {}, None)],
               [({"a": [1, 2], "b": [3]}, {}, {"a": [3, 4], "b": [1]}), ({"a": [2], "b": [2]}, {"c": 1}, None), ({"a": [2, 1], "b": [2]}, {}, None)]):
     tried += 1
